@@ -46,6 +46,8 @@ class Net:
         self.on_idle = None
         self.next_port = 40000
         self.oplog = None        # optional callable(kind, sock, info) observing every data-path call
+        self.greedy = None       # optional callable(sock): models an OS with a very large send buffer - send() keeps handing bytes to the
+        #                          kernel, calling this hook (which must drain the remote end, e.g. Peer.recv) whenever the kernel buffer is full
 
     # ---- naming
     def name_of(self, addr):
@@ -222,6 +224,21 @@ class SimSocket(_real_socket):
                         self._die(act[1])
                     raise OSError(act[1], 'simulated send error')
         n = super().send(data, flags)
+        if NET.greedy is not None and n < len(data):
+            # "however the OS accepts it": one send() may accept an arbitrarily large payload in full
+            view = memoryview(bytes(data))
+            stalls = 0
+            while n < len(view) and stalls < 4:
+                try:
+                    k = super().send(view[n:], flags)
+                except BlockingIOError:
+                    k = 0
+                if k:
+                    n += k
+                    stalls = 0
+                else:
+                    stalls += 1
+                    NET.greedy(self)
         self.sim_sent += bytes(data[:n])
         if NET.oplog is not None:
             NET.oplog('send', self, bytes(data[:n]))
